@@ -16,7 +16,7 @@ func init() {
 	run.Register(&run.Check{
 		ID:    "C18",
 		Level: "exploration",
-		Rule: "cases: a directory (valid NetworkPolicy / ANP / Ingress worlds; worlds with a malformed document; with a fatal duplicate-policy conflict; with nothing analysable) and a random flag combination (-o txt|json|csv|md|dot, --exposure, --focusworkload present/absent/shared, --fail, -q/-v, -f FILE) for list, or (-o txt|csv|md|dot, --fail, -f) for diff against an edited second directory; " +
+		Rule: "cases: a directory (the repository's own manifest directories; generated valid NetworkPolicy / ANP / Ingress worlds; worlds with a malformed document; with a fatal duplicate-policy conflict; with nothing analysable) and a random flag combination (-o txt|json|csv|md|dot, --exposure, --focusworkload present/absent/shared, --fail, -q/-v, -f FILE) for list, or (-o txt|csv|md|dot, --fail, -f) for diff against an edited second directory; " +
 			"the binary built from cmd/netpolicy is run as a child process and compared byte-for-byte with the in-process library call made with the same options: stdout = returned string, -f file = stdout, exit status != 0 <=> library returned an error; ConnlistFromResourceInfos(scan(dir)) must return the same connections as ConnlistFromDirPath; " +
 			"non-trivial = the compared output is non-empty and at least one non-default flag is set; distinct = world hash + flags",
 		Assumptions:       []string{"C08 (run-to-run determinism) for comparing two separate executions", "log output goes to stderr and is not part of the comparison"},
@@ -26,7 +26,7 @@ func init() {
 		MinNonTrivial:     100,
 		MinEffectiveShare: 0.4,
 		RequiredEvents: map[string]int64{"binary_runs": 400, "stdout_bytes_compared": 50000, "outfile_compared": 50, "outfile_preexisting": 20, "error_exit_cases": 30, "list_invocations": 200, "diff_invocations": 80,
-			"flag_exposure": 30, "flag_focusworkload": 30, "flag_fail": 30, "infos_vs_dirpath_compared": 100},
+			"flag_exposure": 30, "flag_focusworkload": 30, "flag_fail": 30, "infos_vs_dirpath_compared": 100, "fixture_invocations": 40},
 	})
 }
 
@@ -48,7 +48,7 @@ func c18World(g *rng.R, class string) *world.World {
 func runC18(c *run.Ctx) {
 	r := c.Res
 	g := c.R("world")
-	class := rng.Pick(g, []string{"np", "np", "anp", "ingress", "ingress", "severe", "fatal", "nothing"})
+	class := rng.Pick(g, []string{"np", "np", "anp", "ingress", "ingress", "severe", "fatal", "nothing", "fixture", "fixture"})
 	var w *world.World
 	if class == "severe" || class == "fatal" || class == "nothing" {
 		w = c18World(g, "np")
@@ -57,7 +57,18 @@ func runC18(c *run.Ctx) {
 	}
 	r.Feat("class_" + class)
 	dir := c.Dir("input")
-	if class == "nothing" {
+	fixtureNames := []string{}
+	if class == "fixture" {
+		// one of the repository's own manifest directories (never the slow ipblockstest_4)
+		dir = fixtureAt(c.Repo, "quick", g.Intn(70))
+		r.Ev("fixture_invocations", 1)
+		probe := observe.List(dir, observe.ListOpts{})
+		for _, p := range probe.Peers {
+			if !p.IsIP {
+				fixtureNames = append(fixtureNames, p.Name, p.Ns+"/"+p.Name)
+			}
+		}
+	} else if class == "nothing" {
 		_ = os.MkdirAll(dir, 0o755)
 		if g.P(0.5) {
 			_ = os.WriteFile(filepath.Join(dir, "cm.yaml"), []byte(junkDocs["configmap"]), 0o644)
@@ -107,6 +118,9 @@ func runC18(c *run.Ctx) {
 		if g.P(0.35) && len(w.Workloads) > 0 {
 			wl := rng.Pick(g, w.Workloads)
 			opts.Focus = rng.Pick(g, []string{wl.Name, wl.Ns + "/" + wl.Name, "nosuch", "ingress-controller"})
+			if len(fixtureNames) > 0 {
+				opts.Focus = rng.Pick(g, append(fixtureNames, "nosuch"))
+			}
 			args = append(args, "--focusworkload", opts.Focus)
 			r.Ev("flag_focusworkload", 1)
 			nondefault++
@@ -152,7 +166,9 @@ func runC18(c *run.Ctx) {
 			}
 		}
 		dir2 := c.Dir("input2")
-		if err := w2.Write(dir2, c.R("layout2")); err != nil {
+		if class == "fixture" {
+			dir2 = fixtureAt(c.Repo, "quick", g.Intn(70))
+		} else if err := w2.Write(dir2, c.R("layout2")); err != nil {
 			r.Discarded = err.Error()
 			return
 		}
